@@ -7,6 +7,7 @@ import Ops.Metadata
 import Ops.BitCoders
 import Ops.MeshTools
 import Ops.Symbols
+import Ops.E2EProps
 import Ops.IO
 import Ops.SeqEnc
 import Ops.EncBuf
@@ -31,7 +32,8 @@ def allOps : List (String × (List String → String)) := List.flatten [
   Ops.encBufOps,
   Ops.c0506Ops,
   Ops.kdTreeOps,
-  Ops.kdEncOps]
+  Ops.kdEncOps,
+  Ops.e2ePropsOps]
 
 def dispatch (line : String) : String :=
   match (line.trimAscii.toString.splitOn " ").filter (· ≠ "") with
